@@ -641,6 +641,7 @@ def constant_terminates(a, tier, rule_id):
         except Exception:  # noqa: BLE001
             pass
         it = ModelInterp(a, {**consts, 'AST': AstD, 'safe_builtins': Hook(lambda: {}), 'is_eval_safe': Hook(lambda e, c: True), 'safe_eval': Hook(safe_eval),
+                             'eval': Hook(lambda e, *x: safe_eval(e, None)),  # whichever evaluator the code calls (who may call eval is C17.R2's business)
                              'stdlib_ast': Hook(None, literal_eval=Hook(lit_eval)), 'trim': Hook(lambda x: x.strip()), 'Undefined': object(),
                              'getattr': Hook(lambda o, n, *d: (o.attrs[n] if isinstance(o, Hook) and n in o.attrs else (d[0] if d else None)))})
         try:
